@@ -193,6 +193,7 @@ func init() {
 	intrinsics["golang.org/x/crypto/curve25519.ScalarBaseMult"] = func(in *Interp, fr *frame, a []Value) Value {
 		sc := in.pack(in.arrTerms(a[1]))
 		pub := in.tc.App("x25519_base", 256, sc)
+		in.sol.Assert(in.tc.Not(in.tc.Eq(pub, in.zero256()))) // honest public keys are non-zero
 		in.storeArr(a[0], in.unpack(pub, 32))
 		return nil
 	}
